@@ -40,7 +40,7 @@ func engDelivery(variants []engDelivParams) vsched.Instance {
 	var sends []sendRec
 	var p engDelivParams
 	body := func() {
-		p = variants[vsched.Choose(len(variants))]
+		p = variants[chooseVariant(len(variants))]
 		k = NewKit()
 		a := k.E.Spawn(k.Producer("A", nil), "a", actor.WithID("1"), actor.WithInboxSize(p.Size))
 		var b *actor.PID
@@ -174,7 +174,7 @@ func engLifecycleRace(variants []lifeRaceParams) vsched.Instance {
 	spawnReturned := false
 	startedAtReturn := false
 	body := func() {
-		p = variants[vsched.Choose(len(variants))]
+		p = variants[chooseVariant(len(variants))]
 		k = NewKit()
 		vsched.EndSetup()
 		pid := actor.NewPID("local", "a/1")
@@ -298,7 +298,7 @@ func engDuplicate(variants []dupParams) vsched.Instance {
 	var got []*actor.PID // PIDs returned by the racing spawns
 	getAfter := map[int]bool{}
 	body := func() {
-		p = variants[vsched.Choose(len(variants))]
+		p = variants[chooseVariant(len(variants))]
 		k = NewKit()
 		var first *actor.PID
 		if p.Pending > 0 {
@@ -499,7 +499,7 @@ func engDeadLetter(variants []dlParams) vsched.Instance {
 	var target, sender *actor.PID
 	var msgs []any
 	body := func() {
-		p = variants[vsched.Choose(len(variants))]
+		p = variants[chooseVariant(len(variants))]
 		k = NewKit()
 		switch p.Subs {
 		case 1:
@@ -643,4 +643,118 @@ func tail(s []string, n int) []string {
 		return s[len(s)-n:]
 	}
 	return s
+}
+
+// ------------------------------------------------------------------ C02/C05: restart with late senders (quiet engine)
+
+type restartLateParams struct {
+	Tail  int  // messages queued together with the crashing one (same sender, behind it)
+	Late  int  // messages sent by a thread that the crashing Receive starts (they land during the restart)
+	Third bool // one more sender, started by the first delivery after the restart
+	Delay bool // RestartDelay 10ms (virtual) instead of 0
+	Size  int
+}
+
+func (p restartLateParams) String() string {
+	return fmt.Sprintf("tail%dlate%dthird%vdelay%v", p.Tail, p.Late, p.Third, p.Delay)
+}
+
+// engRestartLate: message 0 panics once. Behind it sit Tail messages of the same sender; the
+// crashing Receive starts a thread that sends Late more messages (ids 100..) while the actor
+// restarts; the first delivery to the new incarnation starts a third sender (id 200). No event
+// stream, no monitor: the whole budget goes into worker/sender interleavings.
+func engRestartLate(variants []restartLateParams) vsched.Instance {
+	var k *Kit
+	var p restartLateParams
+	sent := map[int]bool{}
+	body := func() {
+		p = variants[chooseVariant(len(variants))]
+		k = NewQuietKit()
+		vsched.EndSetup()
+		var pid *actor.PID
+		crashed, thirdStarted := false, false
+		beh := func(k *Kit, c *actor.Context, inc int) {
+			vsched.Yield()
+			m, ok := c.Message().(int)
+			if !ok {
+				return
+			}
+			if m == 0 && !crashed {
+				crashed = true
+				if p.Late > 0 {
+					e := c.Engine()
+					vsched.Go("late-sender", func() {
+						for i := 0; i < p.Late; i++ {
+							sent[100+i] = true
+							e.Send(pid, 100+i)
+						}
+					})
+				}
+				panic("boom")
+			}
+			if inc >= 2 && p.Third && !thirdStarted {
+				thirdStarted = true
+				e := c.Engine()
+				vsched.Go("third-sender", func() { sent[200] = true; e.Send(pid, 200) })
+			}
+		}
+		opts := []actor.OptFunc{actor.WithID("1"), actor.WithInboxSize(p.Size)}
+		if p.Delay {
+			opts = append(opts, actor.WithRestartDelay(10*1000*1000))
+		} else {
+			opts = append(opts, actor.WithRestartDelay(0))
+		}
+		pid = k.E.Spawn(k.Producer("A", beh), "a", opts...)
+		for i := 0; i <= p.Tail; i++ {
+			sent[i] = true
+			k.E.Send(pid, i)
+		}
+		vsched.Quiesce()
+	}
+	check := func(r *vsched.Result) []vsched.Violation {
+		vs := stdEnd(r)
+		if len(vs) > 0 {
+			return vs
+		}
+		vs = append(vs, k.serial()...)
+		vs = append(vs, lifecycleShape(k, "A", false)...)
+		cnt := map[int]int{}
+		last := map[int]int{}
+		for _, e := range userMsgs(k.Recv("A")) {
+			id := e.Raw.(int)
+			cnt[id]++
+			if l, ok := last[id/100]; ok && l > id {
+				vs = append(vs, V("order/same-sender-reordered", "%s: %d delivered after %d; log: %s", p, id, l, k.LogString()))
+			}
+			last[id/100] = id
+			if id != 0 && e.Inc != 2 {
+				vs = append(vs, V("restart/message-delivered-to-wrong-incarnation", "%s: message %d delivered to incarnation %d; log: %s", p, id, e.Inc, k.LogString()))
+			}
+		}
+		for id := range sent {
+			if cnt[id] != 1 {
+				sig := "loss/message-not-delivered"
+				if cnt[id] > 1 {
+					sig = "duplicate/message-delivered-twice"
+				}
+				vs = append(vs, V(sig, "%s: message %d delivered %d times; log: %s", p, id, cnt[id], k.LogString()))
+			}
+		}
+		if k.Incs("A") != 2 {
+			vs = append(vs, V("restart/wrong-number-of-incarnations", "%s: %d incarnations, want 2; log: %s", p, k.Incs("A"), k.LogString()))
+		}
+		if in := actor.VerifProcInbox(k.E, actor.NewPID("local", "a/1")); in != nil {
+			if st, ln := actor.VerifInboxStatus(in), actor.VerifInboxLen(in); st != actor.VerifIdle || ln != 0 {
+				vs = append(vs, V("end-state/not-idle-empty", "%s: at quiescence status=%d len=%d", p, st, ln))
+			}
+		}
+		return vs
+	}
+	outcome := func() string {
+		if k == nil {
+			return ""
+		}
+		return p.String() + ": " + k.LogString()
+	}
+	return vsched.Instance{Body: body, Check: check, Outcome: outcome}
 }
